@@ -996,3 +996,63 @@ def grd6b_eof_only_from_a_short_read(P, R, L, rule="GRD-6"):
         R.check(rule, fn + "|eof-only-from-a-short-read", not bad, where(b),
                 "ErrorKind::UnexpectedEof is constructed only behind `bytes read < expected` of a file read", "; ".join(bad) or "constructions %d, short-read edges %d" % (len(mk), len(short)))
     R.floor(rule, "constructions of ErrorKind::UnexpectedEof in the log reader", n, 2)
+
+
+# ------------------------------------------------------------------------------------------- ENUM-1 a tag decoder inverts the enum's discriminants
+TAG_DECODERS = [
+    "<key::Operation as std::convert::TryFrom<u8>>::try_from",
+    "<logs::BlockType as std::convert::TryFrom<u8>>::try_from",
+    "<config::TableFileCompressionType as std::convert::TryFrom<u8>>::try_from",
+    "<versioning::version_manifest::ManifestFieldTags as std::convert::TryFrom<u32>>::try_from",
+]
+
+
+def enum1_tag_decoders(P, R, L, rule="ENUM-1"):
+    """Every persisted enum is written as its discriminant (`op as u8`, `tag as u32`) and read back with a hand-written
+    `TryFrom<integer>`: each arm `v => Variant` of the decoder must name the variant whose discriminant is v, and every
+    variant must be decodable.  (Swapping two arms of `Operation` turns every stored Put into a Delete.)"""
+    enums = P.facts.get("enums", {}) if hasattr(P, "facts") else {}
+    n = 0
+    for fn in TAG_DECODERS:
+        b = P.body(fn)
+        if b is None:
+            R.missing_anchor(rule, fn)
+            continue
+        R.analysed(b)
+        adt = fn.split(" as ")[0].lstrip("<")
+        discr = {v: int(d) for (v, d) in enums.get(adt, [])}
+        if not discr:
+            R.check(rule, fn + "|discriminants-known", False, where(b), "the facts list the discriminants of %s" % adt, "none")
+            continue
+        arms, bad = {}, []
+        for bb in range(b.n):
+            t = b.term(bb)
+            if b.is_cleanup(bb) or t["k"] != "switch" or t["discr"].get("k") not in ("copy", "move"):
+                continue
+            if not any(o.kind == "param" and o.name == 1 for o in origins(b, t["discr"])):
+                continue
+            for (v, tgt) in t["targets"]:
+                # the first aggregate of the enum built on the way from this arm
+                seen, todo, found = set(), [tgt], None
+                while todo and found is None:
+                    x = todo.pop(0)
+                    if x in seen or b.is_cleanup(x):
+                        continue
+                    seen.add(x)
+                    for st in b.blocks[x]["stmts"]:
+                        if st["k"] == "assign" and st["rv"]["k"] == "aggregate" and st["rv"].get("adt") == adt:
+                            found = st["rv"].get("variant")
+                            break
+                    if found is None and b.term(x)["k"] in ("goto",):
+                        todo += b.succ(x)
+                if found is None:
+                    continue
+                arms[int(v)] = found
+                if discr.get(found) != int(v):
+                    bad.append("%s => %s, but %s = %s" % (v, found, found, discr.get(found)))
+        missing = sorted(set(discr) - set(arms.values()))
+        n += 1
+        R.check(rule, fn + "|arms-invert-the-discriminants", bool(arms) and not bad and not missing, where(b),
+                "each arm `v => Variant` names the variant whose discriminant is v; every variant has an arm",
+                "; ".join(bad) or ("variants without an arm: %s" % missing if missing else "%d arms" % len(arms)))
+    R.floor(rule, "tag decoders examined", n, 4)
